@@ -32,6 +32,10 @@
          failure is the *same* ProofError (reads exactly like the refusal of a request without the header,
          public reason ``proxy_required``, no echo of the verifier's reason/detail); in allow mode the
          claims carry the table's reason and no kid.
+(d') xh: histories through the gate — two presentations through ONE gate object (real ``proxy_proof_gate`` bytecode calling the
+         stubbed verifier of (b), the replay memory built by the gate itself from the real ``NonceCache``): mode, the kid each names
+         (three configured / unknown), MAC right/wrong and same/other nonce symbolic.  Oracle: the table along the worker's history
+         (a nonce accepted under one kid is ``replayed`` under any other); require mode observes accepted / refused only.
 (e) xh : nothing stubbed — the real ``verify_proof`` on every string of <= N chars, and on a valid
          token with one field replaced by an arbitrary short string (outcomes before the MAC only).
 """
@@ -55,7 +59,7 @@ BOUNDS = (
     "rx: all strings over code points 0..0x2FFFF; decision table: unbounded ints for token length/now/skew(>=0), 0<=ts<10**20 (the 20-digit "
     "row of §3), |now|<=2**53 when read from the float wall clock, field count 1..7, "
     "version any str len<=3, per-field charset verdict free, key map 3 kids (two share a label), history = one bit (nonce accepted before or not); "
-    "histories of two well-formed in-window presentations (kid 0..3, MAC right/wrong, same/other nonce) on an initially empty history; histories of 4 (thorough 5) presentations of 2 (3) valid tokens with unbounded int clock steps / skew / timestamps over the real NonceCache; canonical_string: one varied field len<=2 (nonce: 20 fixed + <=2); gate: header absent or "
+    "histories of two well-formed in-window presentations (kid 0..3, MAC right/wrong, same/other nonce) on an initially empty history; histories of 4 (thorough 5) presentations of 2 (3) valid tokens with unbounded int clock steps / skew / timestamps over the real NonceCache; the same two-presentation histories through one gate object in both modes; canonical_string: one varied field len<=2 (nonce: 20 fixed + <=2); gate: header absent or "
     "any str len<=2; un-stubbed: all tokens len<=%d and one-field mutations len<=2 of a minted token" % pick(6, 8)
 )
 OUTSIDE = (
@@ -74,6 +78,8 @@ ASSUMPTIONS = [
     "histories with a clock: the real NonceCache with its public ttl_seconds attribute set to the int skew after construction (the constructor applies float(); the code only "
     "adds and compares it; import-time witness that the attribute is what the code reads, else HarnessModelError) and an int monotonic clock that advances exactly with the wall clock; "
     "default capacity (never reached); the replay uses the real constructor and a float clock",
+    "gate histories: header value = abstract five-field token without comma that a gate may peek at with split('.', n) (any other use: HarnessModelError); ProxyProofConfig = "
+    "record of its six documented fields with the key map keyed by the opaque kid strings (its eager validation is not exercised); the gate's NonceCache is the real class with a frozen clock",
     "clocks and skew are ints (comparisons and subtraction only); their rendering inside ProofError messages is abstracted to a constant (message text is not part of the claim)",
 ]
 
@@ -1278,6 +1284,157 @@ def gate_reasons_and_uniform_refusal(require: bool, present: bool, raw: str, out
         return False  # a failure must have been refused
     # allow mode: recorded, never denied, and nothing the caller claimed is attributed
     return bool(claims["verified"] == "false" and claims["proxy"] == "" and claims["kid"] == "" and claims["origin_id"] == _ORIGIN and claims["reason"] == want)
+
+
+# (d') histories through the gate: the nonce history of step 9 is the WORKER's — one per gate, whatever kid a proof names.
+# Two presentations through one gate object built by the real ``proxy_proof_gate`` bytecode, which calls the stubbed
+# verifier of (b) and builds its replay memory itself from the real NonceCache class.
+
+_F_KID_X = _Field("kid-unknown")  # a kid string that is not in the key map
+_GATE_KIDS = {0: _F_KID_X, 1: _F_KID, 2: _F_KID_B, 3: _F_KID_C}
+_GATE_SECRETS = {_F_KID: (_KEYS[1], _LABELS[1]), _F_KID_B: (_KEYS[2], _LABELS[2]), _F_KID_C: (_KEYS[3], _LABELS[3])}  # keyed by the opaque kid strings
+
+
+class _GateToken(_Token):
+    """The header value as a gate may look at it: not empty, no comma, five fields; besides the verifier's own
+    ``split('.')`` a gate may peek at leading fields with ``split('.', n)`` (the rest is one opaque remainder)."""
+
+    def __contains__(self, item) -> bool:  # type: ignore[no-untyped-def]
+        if item == ",":
+            return False
+        raise HarnessModelError("header value searched for something other than a comma")
+
+    def __eq__(self, other) -> bool:  # type: ignore[no-untyped-def]
+        return other is self  # in particular: not equal to ''
+
+    def __hash__(self) -> int:
+        return id(self)
+
+    def split(self, sep=None, maxsplit=-1):  # type: ignore[no-untyped-def]
+        if sep != ".":
+            raise HarnessModelError("token split other than on '.'")
+        full = _Token.split(self, ".")
+        if maxsplit < 0 or maxsplit >= len(full) - 1:
+            return full
+        return full[:maxsplit] + [_Field("rest-of-header")]
+
+    def __getattr__(self, item: str):  # type: ignore[no-untyped-def]
+        if item.startswith("__"):
+            raise AttributeError(item)
+        raise HarnessModelError(f"header value used through .{item} (not modelled)")
+
+
+class _GateCfg:
+    """The six documented fields of ProxyProofConfig (its eager validation applies real regexes to the kids; not what is judged here)."""
+
+    def __init__(self, require: bool) -> None:
+        self.mode = "require" if require else "allow"
+        self.origin_id = _ORIGIN
+        self.secrets = _GATE_SECRETS
+        self.skew_seconds = 30
+        self.replay_capacity = 1000
+        self.enable_replay_cache = True
+
+    def __getattr__(self, item: str):  # type: ignore[no-untyped-def]
+        if item.startswith("__"):
+            raise AttributeError(item)
+        raise HarnessModelError(f"ProxyProofConfig.{item} is not modelled")
+
+
+def _frozen_clock_cache(*a, **k):  # type: ignore[no-untyped-def]
+    """The real NonceCache, built with whatever the gate passes; its monotonic clock stands still (both presentations are inside the window)."""
+    k.setdefault("clock", lambda: 0.0)
+    return rp.NonceCache(*a, **k)
+
+
+_gate_hist_factory = reglobalize(pf.proxy_proof_gate, verify_proof=_verify_stubbed, NonceCache=_frozen_clock_cache)
+
+
+def _gate_present(gate, require: bool, kid_sel: int, nonce_field, mac_ok: bool):  # type: ignore[no-untyped-def]
+    """One well-formed in-window presentation through the gate: what the caller of the gate can tell ('ok' | reason | 'refused')."""
+    kid_field = _GATE_KIDS[kid_sel]
+    _H.clear()
+    _H.update(length=100, nfields=5, version="v1", kid_ok=True, ts_ok=True, nonce_ok=True, mac_cs=True, kid_sel=kid_sel, ts=1000, wall=1000,
+              mac_ok=mac_ok, fresh=True, order=[], macs=[], compared=[], cache_args=[], kid_field=kid_field, nonce_field=nonce_field)
+    try:
+        claims = gate(_Req(True, _GateToken()))
+    except pf.ProofError:
+        return "refused" if require else "allow-mode gate refused"
+    if claims["verified"] == "true":
+        return "ok" if claims["reason"] == "ok" else "verified with reason " + str(claims["reason"])
+    return "passed unverified" if require else claims["reason"]
+
+
+def _gate_want(require: bool, want: str) -> str:
+    """Require mode: every failure is the same refusal (which row failed is not observable); allow mode: the table's reason in the claims."""
+    return want if (want == "ok" or not require) else "refused"
+
+
+def _replay_gate_history(args: dict) -> str | None:
+    """Real gate (real config, real verifier, real NonceCache, Falcon request), tokens computed from spec §3/§4."""
+    import falcon.testing
+
+    real = {1: b"\x01" * 32, 2: b"\x02" * 32, 3: b"\x04" * 32}
+    wrong = b"\x03" * 32
+    names = {0: "kid-none", 1: "kid-one", 2: "kid-two", 3: "kid-three"}
+    secrets = {"kid-one": (real[1], "proxy-A"), "kid-two": (real[2], "proxy-A"), "kid-three": (real[3], "proxy-B")}
+    require = bool(args["require"])
+    gate = pf.proxy_proof_gate(pf.ProxyProofConfig(mode="require" if require else "allow", origin_id=_ORIGIN, secrets=secrets, skew_seconds=30), now=lambda: 1000)
+    n1 = "H" * 22
+    n2 = n1 if args["same_nonce"] else "J" * 22
+    wants = _history_expect(args["kid_sel1"], args["mac_ok1"], args["kid_sel2"], args["mac_ok2"], args["same_nonce"])
+    told = []
+    for sel, mac_ok, nonce, want in ((args["kid_sel1"], args["mac_ok1"], n1, wants[0]), (args["kid_sel2"], args["mac_ok2"], n2, wants[1])):
+        tok = _spec_token(real.get(sel, wrong) if mac_ok else wrong, names[sel], 1000, nonce, _ORIGIN)
+        req = falcon.testing.create_req(headers={pf.PROOF_HEADER: tok})
+        try:
+            claims = gate(req)
+            got = "ok" if claims.get("verified") == "true" and claims.get("reason") == "ok" else ("passed unverified" if require else str(claims.get("reason")))
+        except pf.ProofError:
+            got = "refused" if require else "allow-mode gate refused"
+        except Exception as e:  # noqa: BLE001
+            got = f"{type(e).__name__}: {e}"
+        told.append(f"{pf.PROOF_HEADER}: {tok} -> {got}")
+        if got != _gate_want(require, want):
+            return (f"one {'require' if require else 'allow'}-mode gate (proxy_proof_gate), kids " + ", ".join(sorted(secrets)) + ", clock 1000: " + "; then ".join(told)
+                    + f" — the decision table of docs/proxy-proof-spec.md §6 says {want}" + (" (step 9: nonce already seen within the window)" if want == "replayed" else ""))
+    return None
+
+
+def _gate_history_sig(args: dict, conc) -> str:  # type: ignore[no-untyped-def]
+    if args["same_nonce"] and args["kid_sel1"] != args["kid_sel2"]:
+        return "C22:gate:nonce-history-depends-on-kid"
+    return "C22:gate:nonce-history:differs-from-decision-table"
+
+
+@cond(q=120, t=300, stubs=_STUBS_B[:-1] + ["gate's verify_proof := the stubbed verifier of (b) (real bytecode)", "header value := abstract five-field token, no comma, may be peeked at with split('.', n)",
+                                           "ProxyProofConfig := record of its six fields (key map keyed by the opaque kid strings)", "NonceCache := the REAL class as the gate constructs it, monotonic clock frozen"],
+      encoded=[pf.proxy_proof_gate, pf.verify_proof, rp.NonceCache.check_and_add],
+      bound="mode x two well-formed in-window presentations through one gate object: kid 0..3 each (3 configured, two sharing a label, 0 = unknown), MAC right/wrong each, same or another nonce; "
+            "require mode observes accepted/refused only",
+      replay=_replay_gate_history, signature=_gate_history_sig)
+def gate_nonce_history_is_per_worker(require: bool, kid_sel1: int, mac_ok1: bool, kid_sel2: int, mac_ok2: bool, same_nonce: bool) -> bool:
+    """
+    pre: 0 <= kid_sel1 <= 3 and 0 <= kid_sel2 <= 3
+    post: _
+    """
+    want1, want2 = _history_expect(kid_sel1, mac_ok1, kid_sel2, mac_ok2, same_nonce)
+    k1 = 0
+    k2 = 0
+    for k in (1, 2, 3):
+        if kid_sel1 == k:
+            k1 = k
+        if kid_sel2 == k:
+            k2 = k
+    try:
+        gate = _gate_hist_factory(_GateCfg(require), now=lambda: _SymInt(1000))
+        got1 = _gate_present(gate, require, k1, _F_NONCE, mac_ok1)
+        got2 = _gate_present(gate, require, k2, _F_NONCE if same_nonce else _F_NONCE_B, mac_ok2)
+    except HarnessModelError:
+        raise
+    except Exception:  # noqa: BLE001
+        return False  # only ProofError may escape the gate
+    return got1 == _gate_want(require, want1) and got2 == _gate_want(require, want2)
 
 
 # ---------------------------------------------------------------------------
